@@ -18,8 +18,29 @@ pub fn run(ctx: &mut Ctx) {
     let prop = "C12";
     let cfg = GenCfg::standard();
     let n = ctx.n(500, 30_000);
-    let cases = matcher_cases(prop, ctx, &cfg, n);
-    ctx.ev.rule = "each accepted generated ledger P (a long single-security history is cut at its 29th–33rd purchase, its remainder becoming S) × a generated continuation S (no CAPRETURN/ACCUMULATION; in half the cases with a SPLIT/UNSPLIT of a security that P holds, by preference one whose purchases P's capital events adjusted) shifted to start 31, 32 or more days after P's last transaction (exactly 31 in a third of the cases): the real calculate() on P ++ S must either reject with an error dated in S or list, for every disposal dated within P, the same legs, costs, proceeds and gain as calculate() on P. Correspondence: P ++ S vs the model. Non-trivial = P has a disposal in its last 30 days and S contains a purchase of the same security; distinct by ledger text.".into();
+    let mut cases = matcher_cases(prop, ctx, &cfg, n);
+    // prefixes written out of date order with a day of two separate SELL lines of one security (a purchase and a
+    // line of another security between them): what the earlier disposal's legs are must not depend on how many
+    // lines follow (a sort that is not stable reorders same-day lines once the list grows)
+    {
+        use rust_decimal::Decimal;
+        let mut rr = Rng::new(ctx.seed ^ 0xC125);
+        for i in 0..ctx.n(12, 500) {
+            let d0 = ledger::d(2021 + rr.below(3) as i32, 1 + rr.below(12) as u32, 1 + rr.below(28) as u32);
+            let day = d0 + Duration::days(rr.range(40, 200));
+            let mut l: Ledger = vec![
+                GTx::new(day, "AAA", Kind::Sell, Decimal::from(rr.range(5, 30)), Decimal::from(rr.range(5, 15)), Decimal::ZERO),
+                GTx::new(day, "BBB", Kind::Buy, Decimal::from(10), Decimal::from(3), Decimal::ZERO),
+                GTx::new(day, "AAA", Kind::Buy, Decimal::from(rr.range(10, 40)), Decimal::from(rr.range(2, 9)), Decimal::ONE),
+                GTx::new(d0, "AAA", Kind::Buy, Decimal::from(200), Decimal::from(rr.range(1, 6)), Decimal::ZERO),
+                GTx::new(day, "AAA", Kind::Sell, Decimal::from(rr.range(5, 30)), Decimal::from(rr.range(16, 30)), Decimal::from(2)),
+                GTx::new(d0 + Duration::days(3), "BBB", Kind::Buy, Decimal::from(5), Decimal::from(2), Decimal::ZERO),
+            ];
+            if rr.chance(1, 2) { l.reverse(); }
+            cases.push((format!("unordered-multisell#{i}"), l));
+        }
+    }
+    ctx.ev.rule = "each accepted generated ledger P (plus prefixes written out of date order with a day of two separate SELL lines, continued by 15–44 later lines and compared leg for leg; a long single-security history is cut at its 29th–33rd purchase, its remainder becoming S) × a generated continuation S (no CAPRETURN/ACCUMULATION; in half the cases with a SPLIT/UNSPLIT of a security that P holds, by preference one whose purchases P's capital events adjusted) shifted to start 31, 32 or more days after P's last transaction (exactly 31 in a third of the cases): the real calculate() on P ++ S must either reject with an error dated in S or list, for every disposal dated within P, the same legs, costs, proceeds and gain as calculate() on P. Correspondence: P ++ S vs the model. Non-trivial = P has a disposal in its last 30 days and S contains a purchase of the same security; distinct by ledger text.".into();
     let ex = run_impl::wide_exemptions();
     let mut r = Rng::new(ctx.seed ^ 0xC12);
     let mut scfg = cfg.clone();
@@ -53,7 +74,16 @@ pub fn run(ctx: &mut Ctx) {
         ctx.ev.count("prefix-accepted");
         let last = p.iter().map(|t| t.date).max().expect("non-empty");
         // continuation on the same tickers, shifted after last + gap
-        let mut s = match forced { Some(t) => { ctx.ev.count("long-history-cut"); t } None => ledger::gen_ledger(&mut r, &scfg) };
+        let forced_block: Option<()> = if name.starts_with("unordered-multisell") { Some(()) } else { None };
+        let mut s = match forced {
+            Some(t) => { ctx.ev.count("long-history-cut"); t }
+            None if forced_block.is_some() => {
+                ctx.ev.count("unordered-multisell-prefix");
+                let k = 15 + r.below(30) as i64;
+                (0..k).map(|j| GTx::new(last + Duration::days(400 + 3 * j), "BBB", Kind::Buy, rust_decimal::Decimal::from(1 + j), rust_decimal::Decimal::from(2), rust_decimal::Decimal::ZERO)).collect()
+            }
+            None => ledger::gen_ledger(&mut r, &scfg),
+        };
         if s.is_empty() { continue; }
         let first = s.iter().map(|t| t.date).min().expect("non-empty");
         let gap = match r.below(3) { 0 => 31, 1 => 32, _ => r.range(33, 400) };
@@ -71,7 +101,8 @@ pub fn run(ctx: &mut Ctx) {
         }
         let mut whole = p.clone();
         whole.extend(s.iter().cloned());
-        if r.chance(1, 3) { r.shuffle(&mut whole); }
+        let shuffled = forced_block.is_none() && r.chance(1, 3);
+        if shuffled { r.shuffle(&mut whole); }
         if cli_left > 0 { cli_left -= 1; cli_crosscheck(ctx, prop, &whole, None); }
         let out = run_impl::impl_calc(&whole, None, &ex);
         let late_disposal = p.iter().any(|t| t.kind == Kind::Sell && (last - t.date).num_days() <= 30 && s.iter().any(|b| b.kind == Kind::Buy && b.ticker == t.ticker));
@@ -93,7 +124,9 @@ pub fn run(ctx: &mut Ctx) {
                 pj.holdings = false;
                 pj.err_detail = false;
                 // several SELL lines on one day: the leg partition follows line adjacency (D17)
-                if multi_sell_day(&whole) { pj.legs_exact = false; }
+                // several SELL lines on one day: the leg partition follows line adjacency (D17) — which appending
+                // lines does not change; only a shuffle of the whole ledger does
+                if multi_sell_day(&whole) && shuffled { pj.legs_exact = false; }
                 // year totals change legitimately when S adds disposals to P's last tax year: compare disposals only
                 let a = upto(wrep, last);
                 let b = upto(brep, last);
